@@ -712,7 +712,7 @@ pub fn execute(plan: &C12Plan) -> Outcome<C12Plan> {
                 // private table, one record at a time, no contention
                 let mut m2 = app::clone_tm(msg);
                 let db = BTreeMap::new();
-                app::now_or_never(crate::snapshot::update_snapshot(&shadow, &mut m2, &db)).expect("shadow update must not suspend");
+                app::now_or_never(crate::snapshot::update_snapshot(&shadow, &mut m2, &db)).expect("shadow update never completed");
                 let t = table_text(&shadow.try_lock().expect("shadow is private"));
                 let mut s = sh.borrow_mut();
                 s.shadow_tables.push(t);
@@ -867,7 +867,13 @@ pub fn execute(plan: &C12Plan) -> Outcome<C12Plan> {
         let want = if *n_done == 0 { "[]".to_string() } else { sh.shadow_tables[*n_done - 1].clone() };
         if *body != want && canonical_all(body) != canonical_all(&want) {
             let next = sh.shadow_tables.get(*n_done);
-            let loc = if next.map_or(false, |n| canonical_all(n) == canonical_all(body)) { "update-visible-before-completion" } else { "half-applied-or-foreign-state" };
+            // the record being processed at that instant may already be visible,
+            // completely: update_snapshot may release the table before it returns
+            if next.map_or(false, |n| canonical_all(n) == canonical_all(body)) {
+                out.count("observation_of_update_about_to_return", 1);
+                continue;
+            }
+            let loc = "half-applied-or-foreign-state";
             let body: Value = serde_json::from_str(body).unwrap_or(Value::Null);
             let want: Value = serde_json::from_str(&want).unwrap_or(Value::Null);
             let (body, want) = (&body, &want);
